@@ -100,6 +100,7 @@ func c16(r *core.Report) {
 	c16VisitedCtx(r, adders)
 	c16EarlyExit(r)
 	c16CtxFlow(r)
+	c16IdentChars(r)
 
 	units, _ := refUnits(p, "openapi3")
 	r.RunRule("C16.cover", "internalising reaches every reference position: for every path of fields from a unit to a field that can hold a $ref (same enumeration as C02.cover), the unit's deref function hands that field to the add*ToSpec of the position's wrapper (path items: to derefPaths); units without reference positions of their own need no walker", 29, func() {
@@ -1071,6 +1072,62 @@ func c16EarlyExit(r *core.Report) {
 // c16CtxFlow: "inside an external document" is inherited. Whatever a deref function hands down as
 // the context of a nested walk has to contain its own context: an object below an external object
 // is external whether or not it is itself a reference.
+// c16IdentChars: the names InternalizeRefs invents must pass the check document validation makes on
+// component names: one character table for both.
+func c16IdentChars(r *core.Report) {
+	p := r.Prog
+	info := p.Pkg("openapi3").TypesInfo
+	r.RunRule("C16.identchars", "generated component names are valid identifiers: the name DefaultRefNameResolver returns went through InvalidIdentifierCharRegExp.ReplaceAllString, and that expression and IdentifierRegExp (what ValidateIdentifier accepts) are built from one and the same character-class constant — a sanitiser with a table of its own (unicode.IsLetter...) lets characters through that validation of the internalised document rejects", 2, func() {
+		fd := p.DeclOf("openapi3", "DefaultRefNameResolver")
+		ff := core.NewFuncFacts(p, info, fd)
+		ok := false
+		var last *ast.ReturnStmt
+		ast.Inspect(fd.Body, func(nd ast.Node) bool {
+			if ret, isRet := nd.(*ast.ReturnStmt); isRet && len(ret.Results) == 1 {
+				last = ret
+			}
+			return true
+		})
+		if last == nil {
+			core.Fail("DefaultRefNameResolver: no return")
+		}
+		for _, e := range append([]ast.Expr{last.Results[0]}, ff.Roots(last.Results[0], false).Exprs...) {
+			ast.Inspect(e, func(m ast.Node) bool {
+				if c, isCall := m.(*ast.CallExpr); isCall {
+					if sel, isSel := ast.Unparen(c.Fun).(*ast.SelectorExpr); isSel && sel.Sel.Name == "ReplaceAllString" && core.ExprStr(sel.X) == "InvalidIdentifierCharRegExp" {
+						ok = true
+					}
+				}
+				return true
+			})
+		}
+		r.Check(ok, "identchars:DefaultRefNameResolver", p.Pos(last.Pos()), "the returned name was sanitised with InvalidIdentifierCharRegExp", "the name DefaultRefNameResolver returns is not the result of InvalidIdentifierCharRegExp.ReplaceAllString: characters that ValidateIdentifier rejects (anything outside a-zA-Z0-9._-) can reach component names, and the internalised document fails validation where the original passes")
+		// both expressions from one constant
+		same := false
+		pk := p.Pkg("openapi3")
+		var a, b string
+		for _, f := range pk.Syntax {
+			ast.Inspect(f, func(nd ast.Node) bool {
+				vs, isVS := nd.(*ast.ValueSpec)
+				if !isVS || len(vs.Names) != 1 || len(vs.Values) != 1 {
+					return true
+				}
+				switch vs.Names[0].Name {
+				case "IdentifierRegExp":
+					a = core.ExprStr(vs.Values[0])
+				case "InvalidIdentifierCharRegExp":
+					b = core.ExprStr(vs.Values[0])
+				}
+				return true
+			})
+		}
+		if strings.Contains(a, "identifierChars") && strings.Contains(b, "identifierChars") && strings.Contains(b, "[^") {
+			same = true
+		}
+		r.Check(same, "identchars:table", "openapi3/helpers.go", "both expressions are built from identifierChars", "IdentifierRegExp and InvalidIdentifierCharRegExp are no longer built from the same character-class constant ("+a+" / "+b+")")
+	})
+}
+
 func c16CtxFlow(r *core.Report) {
 	p := r.Prog
 	info := p.Pkg("openapi3").TypesInfo
